@@ -23,6 +23,10 @@ Classes
                                      request-while-detached / completion-while-detached when a request /
                                      the completion of the product falls between the creator's restart
                                      and its first define_step
+  input:<what>                       a consumer against the re-executed creators of the producer of an
+                                     amended input (the input node is detached from a creator's restart
+                                     until that creator defined the next element of the chain again):
+                                     amend-while-input-detached, completion-while-input-detached
   hash:<prev>|<next>                 a committing hash job (Executor._run_hash_job) between which two
                                      kinds of committing transactions: decl (a DirectorHandler request),
                                      hash, dispatch (Scheduler.pop_next_job), completion
@@ -64,6 +68,15 @@ def _creator_of(program, label):
         for a in program["scripts"][name] or []:
             if isinstance(a, dict) and a.get("op") in ("run", "plan") and a.get("label") == label:
                 return "./" + name
+    return None
+
+
+def _producer_of(program, path):
+    """Label of the step that declares `path` as an output (first in script-name order)."""
+    for name in sorted(program.get("scripts", {})):
+        for a in program["scripts"][name] or []:
+            if isinstance(a, dict) and a.get("op") in ("run", "plan") and path in a.get("out", []):
+                return a.get("label")
     return None
 
 
@@ -161,6 +174,39 @@ def profile(r, program: dict) -> dict:
         if c["stop"] is not None and k2["start"] < c["stop"] < until:
             prof["creator-reruns:completion-while-detached"] += 1
             prof["detached-completion:" + c["label"]] += 1
+    # ---- a consumer against the re-executed CREATORS of the producer of one of its inputs: while a creator
+    # on the chain  producer <- script <- script ...  is executed again, the input node is detached from
+    # the creator's reset_for_rerun until the creator has defined the next element of the chain again
+    for c in cmds:
+        acts = _script(program, c["label"]) or []
+        inputs = {p for a in acts if isinstance(a, dict) and a.get("op") == "amend" for p in a.get("inp", [])}
+        if not inputs:
+            continue
+        am = [s for n, _ok, s in c["rpc"] if n in ("amend", "amend_step")]
+        windows = []
+        for p in sorted(inputs):
+            child = _producer_of(program, p)
+            seen = set()
+            while child is not None and child not in seen:
+                seen.add(child)
+                cr = _creator_of(program, child)
+                if cr is None:
+                    break
+                defined = [a.get("label") for a in (_script(program, cr) or [])
+                           if isinstance(a, dict) and a.get("op") in ("run", "plan")]
+                j = defined.index(child) if child in defined else 0
+                for k in by_label.get(cr, []):
+                    redefs = [s for n, _ok, s in k["rpc"] if n == "define_step"]
+                    until = redefs[j] if j < len(redefs) else (k["stop"] if k["stop"] is not None else 10 ** 9)
+                    windows.append((k["start"], until))
+                child = cr
+        if any(a < s < b for s in am for a, b in windows):
+            prof["input:amend-while-input-detached"] += 1
+        if c["stop"] is not None and c.get("rc") == 0 and any(a < c["stop"] < b for a, b in windows):
+            # a SUCCESSFUL completion while an amended input is detached: Step.inp_paths() leaves detached
+            # sources out, so the stored step hash is computed without that input
+            prof["input:completion-while-input-detached"] += 1
+            prof["detached-input-completion:" + c["label"]] += 1
     # ---- committing hash jobs among the other committing transactions
     sites = [_site_kind(s) for s, wrote in r.commit_points if wrote]
     for i, s in enumerate(sites):
